@@ -168,6 +168,17 @@ fn main() {
             (check.run)(&mut ctx);
             std::process::exit(finish(ctx, &check));
         }
+        Some("find") => {
+            let re = regex::Regex::new(&args[2]).unwrap();
+            for t in &args[3..] {
+                println!("{:?} find {:?} -> {:?}; is_match={}", args[2], t, re.find(t).map(|m| (m.start(), m.end())), re.is_match(t));
+            }
+        }
+        Some("big") => {
+            let kind = args.get(2).cloned().unwrap_or_default();
+            let n: usize = args.get(3).and_then(|s| s.parse().ok()).unwrap_or(10);
+            std::process::exit(checks::c07::big_main(&kind, n));
+        }
         Some("replay") => {
             let path = args.get(2).cloned().unwrap_or_default();
             let text = std::fs::read_to_string(&path).unwrap_or_else(|e| {
